@@ -130,6 +130,24 @@ func (d *Driver) Snapshot(ctx context.Context) (migrate.RestoreFunc, error) {
 	if !(r == nil || (len(r.Schemas) == 1 && r.Schemas[0].Name == mainFile && len(r.Schemas[0].Tables) == 0)) {
 		return nil, &migrate.NotCleanError{State: r, Reason: fmt.Sprintf("found table %q", r.Schemas[0].Tables[0].Name)}
 	}
+	// The restore function below deletes views (and their triggers) as well,
+	// but the inspection above reports only tables. Refuse a database holding
+	// a view for the same reason a database holding a table is refused.
+	rows, err := d.QueryContext(ctx, "SELECT `name` FROM sqlite_master WHERE `type` = 'view' LIMIT 1")
+	if err != nil {
+		return nil, fmt.Errorf("sqlite: querying views: %w", err)
+	}
+	defer rows.Close()
+	if rows.Next() {
+		var name string
+		if err := rows.Scan(&name); err != nil {
+			return nil, err
+		}
+		return nil, &migrate.NotCleanError{State: r, Reason: fmt.Sprintf("found view %q", name)}
+	}
+	if err := rows.Close(); err != nil {
+		return nil, err
+	}
 	return func(ctx context.Context) error {
 		for _, stmt := range []string{
 			"PRAGMA writable_schema = 1;",
